@@ -622,6 +622,8 @@ class Ev:
             return Tup(a.items + b.items, a.kind)
         if isinstance(a, Tup) and isinstance(op, ast.Mult) and is_sym(b) and b.is_Integer:
             return Tup(a.items * int(b), a.kind)
+        if isinstance(a, ArrV) or isinstance(b, ArrV):
+            return self.arr_binop(op, a, b, n, mod)
         if isinstance(op, ast.MatMult):
             return MatMul(as_sym(a), as_sym(b))
         x, y = as_sym(a, "left operand"), as_sym(b, "right operand")
@@ -642,6 +644,31 @@ class Ev:
         if isinstance(op, ast.LShift) and x.is_Integer and y.is_Integer:
             return sp.Integer(int(x) << int(y))
         raise self.err(f"unsupported binary operator {type(op).__name__}", n, mod)
+
+    def arr_binop(self, op, a, b, n, mod):
+        """elementwise arithmetic on arrays with constant trailing axes (numpy broadcasting on those axes)"""
+        def shape(x):
+            return x.shape if isinstance(x, ArrV) else ()
+        sa, sb = shape(a), shape(b)
+        nd = max(len(sa), len(sb))
+        pa, pb = (1,) * (nd - len(sa)) + tuple(sa), (1,) * (nd - len(sb)) + tuple(sb)
+        out_shape = []
+        for x, y in zip(pa, pb):
+            if x != y and 1 not in (x, y):
+                raise RaisedV("ValueError")
+            out_shape.append(max(x, y))
+        batch = max(a.batch if isinstance(a, ArrV) else 0, b.batch if isinstance(b, ArrV) else 0)
+        out = ArrV(batch, out_shape)
+
+        def get(x, px, key):
+            if not isinstance(x, ArrV):
+                return as_sym(x)
+            k = tuple(0 if d == 1 else i for d, i in zip(px, key))[nd - len(x.shape):]
+            return x.get(k)
+
+        for key in itertools.product(*[range(d) for d in out_shape]):
+            out.cells[key] = self.binop(op, get(a, pa, key), get(b, pb, key), n, mod)
+        return out
 
     def str_format(self, fmt, arg, n, mod):
         vals = arg.items if isinstance(arg, Tup) else [arg]
@@ -762,6 +789,9 @@ class Ev:
             else:
                 raise self.err("membership test on a non-constant", n, mod)
             return r if isinstance(op, ast.In) else not r
+        for u, v in ((a, b), (b, a)):
+            if is_sym(u) and not u.is_number and u.is_positive and is_sym(v) and v == 0 and isinstance(op, (ast.Eq, ast.NotEq)):
+                return isinstance(op, ast.NotEq)
         if const(a) and const(b):
             x, y = py(a), py(b)
             if isinstance(op, ast.Eq):
@@ -1861,3 +1891,34 @@ lib_quantity.kw = {"units"}
 lib_allclose_unknown.kw = {"atol", "rtol"}
 lib_copy.kw = {"copy"}
 lib_getattr.kw = set()
+
+
+def lib_np_sum(ev, a, k, n, mod):
+    x = a[0]
+    axis = k.get("axis", a[1] if len(a) > 1 else None)
+    keep = k.get("keepdims", False)
+    if isinstance(x, ArrV) and axis is not None:
+        ax = _const_int(axis) - x.batch if _const_int(axis) >= 0 else len(x.shape) + _const_int(axis)
+        if not 0 <= ax < len(x.shape):
+            raise ev.err("numpy.sum over a grid axis of an array", n, mod)
+        rest = [d for i, d in enumerate(x.shape) if i != ax]
+        out_shape = [1 if i == ax else d for i, d in enumerate(x.shape)] if keep else rest
+        out = ArrV(x.batch, out_shape)
+        for key in itertools.product(*[range(d) for d in rest]):
+            tot = sp.Integer(0)
+            for j in range(x.shape[ax]):
+                full = list(key)
+                full.insert(ax, j)
+                tot += x.get(tuple(full))
+            okey = list(key)
+            if keep:
+                okey.insert(ax, 0)
+            out.cells[tuple(okey)] = tot
+        if not out_shape:
+            return out.get(())
+        return out
+    raise ev.err("numpy.sum of this operand is not modelled", n, mod)
+
+
+lib_np_sum.kw = {"axis", "keepdims"}
+LIB["numpy.sum"] = lib_np_sum
